@@ -215,7 +215,13 @@ def run(ctx):
                 agree = 'sim_error' in ma
             else:
                 agree = (ma.get('residual') == after['residual'] and ma.get('residual_rev') == after['residual_rev'])
-            ctx.corr_case('closure', bool(agree), case=case, model=ma, impl=after)
+            if 'sim_error' in after and "missing 2 required positional arguments: 'to' and 'on_delete'" in after['sim_error'] \
+                    and retyped_to_relation(old, new):
+                # Django's field constructor raises inside ChangeField.simulate (finding F55): the model of simulate
+                # does not construct Django fields, so this case is outside what the correspondence can compare
+                ctx.count('closure:outside_model(F55)')
+            else:
+                ctx.corr_case('closure', bool(agree), case=case, model=ma, impl=after)
             # "the model explains this case" (the premise of the attributions below) means all of it: the same
             # difference, the same hint, the same residue
             agree = bool(agree) and out.get('diff') == rd and out.get('hint') == rh
